@@ -118,3 +118,31 @@ Theorem cw_overlapping_correct_for_every_built_automaton :
     cw_find_overlapping_iter V A (encode_utf8 cs) = Ok (map (to_bytes V cs) (spec_overlapping V pvs cs)).
 Proof. exact cw_built_overlapping. Qed.
 Print Assumptions cw_overlapping_correct_for_every_built_automaton.
+
+(* ---- C01 AS ONE STATEMENT PER VARIANT (Proofs/OverlapOnce.v) -----------------------------------------
+   [exactly_the_occurrences_once pvs h ms]: ms contains exactly the triples (s, e, v) with h[s..e] a
+   registered pattern carrying v (none missed, none invented), each of them once (NoDup), strictly
+   ordered by end position and, among equal ends, by start (longest first). *)
+From DV Require Import Proofs.OverlapOnce Theory.Utf8Spec.
+
+Theorem bw_overlapping_search_reports_every_occurrence_exactly_once :
+  forall (V : Type) (veqb : V -> V -> bool), (forall a b, veqb a b = true <-> a = b) ->
+  forall nfb (pvs : list (list N * V)) (A : bw_automaton V),
+    (forall p v, In (p, v) pvs -> Forall (fun b => b < 256) p) -> 4 * total_len V pvs <= U32_MAX - 1 ->
+    bw_build_with_values V Standard nfb pvs = Ok A ->
+  forall h, Forall (fun b => b < 256) h ->
+    exists ms, bw_find_overlapping_iter V A h = Ok ms
+      /\ (forall s e v, In (s, e, v) ms <-> occ_at V pvs h s e v) /\ NoDup ms /\ StronglySorted (slt V) ms.
+Proof. intros V veqb Hv nfb pvs A Hb Hs HA h Hh. exact (bw_overlapping_once V veqb Hv nfb pvs A Hb Hs HA h Hh). Qed.
+Print Assumptions bw_overlapping_search_reports_every_occurrence_exactly_once.
+
+Theorem cw_overlapping_search_reports_every_occurrence_exactly_once :
+  forall (V : Type) (veqb : V -> V -> bool), (forall a b, veqb a b = true <-> a = b) ->
+  forall nfb (pvs : list (list N * V)) (A : cw_automaton V),
+    (forall p v, In (p, v) pvs -> Forall scalar p) -> 4 * total_len V pvs <= U32_MAX - 1 ->
+    cw_build_with_values V Standard nfb pvs = Ok A ->
+  forall cs, Forall scalar cs ->
+    exists ms, cw_find_overlapping_iter V A (encode_utf8 cs) = Ok ms
+      /\ (forall s e v, In (s, e, v) ms <-> occ_at V (bpvs V pvs) (encode_utf8 cs) s e v) /\ NoDup ms /\ StronglySorted (slt V) ms.
+Proof. intros V veqb Hv nfb pvs A Hsc Hs HA cs Hcs. exact (cw_overlapping_once V veqb Hv nfb pvs A Hsc Hs HA cs Hcs). Qed.
+Print Assumptions cw_overlapping_search_reports_every_occurrence_exactly_once.
